@@ -272,10 +272,11 @@ Section Inv.
         pose proof (wfst_set_buf s (skipn 10 d) W). destruct (c_ty c); now apply IHf. }
       destruct (code typ =? c_REPLY_HOST).
       { match goal with |- context[if ?t then _ else _] => destruct t end; [now apply good_id|].
-        match goal with |- good' s (rec (set_buf s ?b) _ _) =>
-          apply (good_same _ (set_buf s b)); [reflexivity|reflexivity|];
-          pose proof (wfst_set_buf s b W) end.
-        now apply IHf. }
+        destruct (c_ty c);
+          match goal with |- good' s (rec (set_buf s ?b) _ _) =>
+            apply (good_same _ (set_buf s b)); [reflexivity|reflexivity|];
+            pose proof (wfst_set_buf s b W) end;
+          now apply IHf. }
       destruct (code typ =? c_REPLY_IPV6).
       { destruct (22 <=? nlen d); [|now apply good_id].
         apply (good_same _ (set_buf s (skipn 22 d))); [reflexivity|reflexivity|].
